@@ -5,6 +5,7 @@ import (
 	"errors"
 	"fmt"
 	"math"
+	"strings"
 
 	"verifharness/fw"
 	"verifharness/grid"
@@ -158,6 +159,23 @@ func genOutsideCase(rng *fw.Rng) (*SnapCase, string) {
 	default:
 		set(tr, rng.Intn(len(ring)))
 	}
+	kindSuffix := ""
+	if nOut > 0 && rng.Chance(1, 1500) {
+		// a large polygon (thousands of points, all but a few inside): either the outside vertex sits late in a long
+		// shell, or a long shell that is entirely inside is put in front and the ring with the outside vertex becomes a hole
+		n := fw.Pick(rng, []int{1000, 5000, 8191, 8192, 8400, 12000, 20000, 70000})
+		pad := make([]P, n)
+		for i := range pad {
+			pad[i] = inPoint()
+		}
+		if rng.Bool() {
+			rings = append([][]P{pad}, rings...)
+			kindSuffix = "/in-hole-of-large-polygon"
+		} else {
+			rings[tr] = append(pad, rings[tr]...)
+			kindSuffix = "/late-in-large-ring"
+		}
+	}
 	poly := make([][][2]float64, len(rings))
 	for i, r := range rings {
 		poly[i] = make([][2]float64, len(r))
@@ -171,7 +189,7 @@ func genOutsideCase(rng *fw.Rng) (*SnapCase, string) {
 	}
 	// sometimes an astronomically far vertex: beyond what the 1e-10 integer representation can hold
 	if nOut > 0 && rng.Chance(1, 40) {
-		v := fw.Pick(rng, []float64{9.3e8, 1e9, 1e10, 1.8446744073709552e9, 1e15, 1e30, 1e300, math.MaxFloat64})
+		v := fw.Pick(rng, []float64{9.3e8, 1e9, 1e10, 1.8446744073709552e9, 1e15, 1e30, 1e300, math.MaxFloat64, math.Inf(1)})
 		if rng.Bool() {
 			v = -v
 		}
@@ -180,7 +198,7 @@ func genOutsideCase(rng *fw.Rng) (*SnapCase, string) {
 		poly[ri][vi][rng.Intn(2)] = v
 		kind = "outside:astronomical"
 	}
-	return &SnapCase{TMS: sc.Spec, IDs: ids, Keep: rng.Bool(), Reverse: rng.Chance(1, 4), Poly: poly, Kind: kind}, ""
+	return &SnapCase{TMS: sc.Spec, IDs: ids, Keep: rng.Bool(), Reverse: rng.Chance(1, 4), Poly: poly, Kind: kind + kindSuffix}, ""
 }
 
 func judgeC09(c *fw.Ctx, sc *SnapCase) {
@@ -233,7 +251,17 @@ func judgeC09(c *fw.Ctx, sc *SnapCase) {
 	}
 	gotOff, panOff := call(false)
 	gotOn, panOn := call(true)
-	c.Rec.Count(sc.Kind)
+	npts := 0
+	for _, r := range sc.Poly {
+		npts += len(r)
+	}
+	if i := strings.Index(sc.Kind, "/"); i >= 0 {
+		c.Rec.Count("large_polygon:" + sc.Kind[i+1:])
+		c.Rec.Max("points_in_a_polygon_with_an_outside_vertex", int64(npts))
+		c.Rec.Count(sc.Kind[:i])
+	} else {
+		c.Rec.Count(sc.Kind)
+	}
 	if nOut == 0 {
 		c.Rec.Count("control_all_inside")
 		if panOff != nil || panOn != nil {
@@ -287,7 +315,7 @@ func judgeC09(c *fw.Ctx, sc *SnapCase) {
 	if ipan != nil {
 		c.Rec.Violation("insertpoint-panics", "", fmt.Sprintf("InsertPoint panicked: %v", ipan), cj, detail)
 	}
-	if c.Rec.WantSample() {
+	if npts < 100 && c.Rec.WantSample() {
 		c.Rec.Sample(map[string]any{"case": sc, "outside_vertices": nOut, "nearest_outside_units": minDist, "panic_value_without_ignore": fmt.Sprintf("%T", panOff), "result_with_ignore_len": len(gotOn)})
 	}
 }
@@ -295,7 +323,7 @@ func judgeC09(c *fw.Ctx, sc *SnapCase) {
 type snapPolys [][][2]float64
 
 func init() {
-	required := []string{"judged_cases_with_outside_vertex", "outside_by_less_than_one_pixel", "control_all_inside"}
+	required := []string{"judged_cases_with_outside_vertex", "outside_by_less_than_one_pixel", "control_all_inside", "large_polygon:in-hole-of-large-polygon", "large_polygon:late-in-large-ring"}
 	fw.Register(&fw.Prop{
 		ID: "C09", Cases: tierN(400000, 5000000),
 		Run: func(c *fw.Ctx) {
